@@ -407,6 +407,9 @@ func execAuth(run *simkit.Run) {
 			w.authExpiry(rr)
 		}
 	}
+	if !run.Failed() && r.Intn(2) == 0 {
+		w.authShutdown(r)
+	}
 	run.Probe("nontrivial")
 	run.Summary = fmt.Sprintf("auth nodes=%d proxy=%+v upstream=%+v admin=%+v tenants=%d ops=%d", len(w.nodes), w.proxy, w.upstream, w.admin, len(w.tenants), len(c.Script))
 }
@@ -514,6 +517,10 @@ func (w *authWorld) authProxy(r *simkit.Rand, tcp bool) {
 			run.Fail("C09.allow", "401-without-auth-configured", "proxy port has no authentication configured but %s got 401", rq.ID)
 		}
 		return
+	}
+	if r.Intn(4) == 0 {
+		// what a client may send must not switch checks off
+		rq.Header.Set("x-piko-forward", []string{"true", "true", "false"}[r.Intn(3)])
 	}
 	t := drawToken(r, pa)
 	var permitted bool
@@ -768,10 +775,61 @@ func (w *authWorld) authExpiry(r *simkit.Rand) {
 	run.Probe("c16.expiry_checked")
 }
 
+// authShutdown: a node with upstreams authenticated by tokens that carry an
+// expiry shuts down gracefully: it must withdraw them like any other upstream.
+func (w *authWorld) authShutdown(r *simkit.Rand) {
+	run := w.run
+	pa := w.upstream
+	if !pa.enabled || len(w.tenants) > 0 {
+		return
+	}
+	n := w.nodes[0]
+	t := drawValid(pa)
+	t.exp = time.Duration(r.Range(600, 7200)) * time.Second
+	if _, err := w.listenAuth("x2", "http", 0, t.sign(time.Now()), ""); err != nil {
+		run.Fail("C09.allow", "valid-token-refused", "listen with a token expiring in %v: %v", t.exp, err)
+		return
+	}
+	synctest.Wait()
+	run.Logf("%s graceful shutdown with an upstream authenticated by an expiring token", n.id)
+	n.alive = false
+	t0 := time.Now()
+	done := make(chan struct{})
+	go func() {
+		simnet.SetHost(n.host)
+		n.srv.Shutdown()
+		close(done)
+	}()
+	<-done
+	n.stopped = true
+	synctest.Wait()
+	if took := time.Since(t0); took > n.conf.GracePeriod+500*time.Millisecond {
+		run.Fail("C18.grace", "shutdown-overran-grace-period", "%s took %v to shut down, grace period %v", n.id, took, n.conf.GracePeriod)
+	}
+	if own := n.srv.ClusterState().LocalNode().Endpoints; len(own) != 0 {
+		run.Fail("C18.withdraw", "still-advertising-after-shutdown", "%s has shut down but still advertises [%s] (upstreams authenticated with expiring tokens)", n.id, epString(own))
+	}
+	run.Probe("c18.shutdown_with_expiring_tokens")
+}
+
 func init() {
 	for _, p := range []string{"C09", "C10"} {
 		simkit.Register(&simkit.Prop{ID: p, Gen: genAuth(p), Exec: execAuth, MaxWall: 120 * time.Second})
 	}
+	// C18 also gets the auth family (shutdown with expiring-token upstreams)
+	lossGen, authGen := genLoss, genAuth("C16")
+	simkit.Register(&simkit.Prop{ID: "C18", MaxWall: 180 * time.Second, Exec: func(run *simkit.Run) {
+		if run.Case.Family == "h3.auth" {
+			execAuth(run)
+		} else {
+			execLoss(run)
+		}
+	}, Gen: func(rng *simkit.Rand, tier string, idx int) *simkit.Case {
+		if idx%5 == 4 {
+			return authGen(rng, tier, idx)
+		}
+		return lossGen(rng, tier, idx)
+	}})
 	// C16: connection-lifecycle family on the cluster engine + token expiry family
 	cl, au := genCluster("C16"), genAuth("C16")
 	clExec := execCluster("C16")
